@@ -23,7 +23,7 @@ RULE = ("case = clients (type, id, key) + ordered operations (kind, accepted arg
         "modes: all 16 + 256 sequences of length <= 2, Hypothesis lists of 3..20 operations, two clients run under asyncio.gather. "
         "Non-trivial = history with >= 2 operations on a connection whose consecutive logins got different session ids; "
         "distinct by (kinds, clients, sessions, delays)."
-        ' Also: all ordered pairs of operation kinds with generated arguments, clocks within +-2 h of a UTC-offset change of the host zone, host zones other than UTC, and a device that takes 6 s .. 25 h to answer one step (login or any command) of an operation, under a harness-owned event-loop clock: the slow operation may wait or give up, but every frame it and the following operations write must belong to a whole exchange bound to its own login.')
+        ' Also: all ordered pairs of operation kinds with generated arguments, clocks within +-2 h of a UTC-offset change of the host zone, host zones other than UTC, and a device that takes 6 s .. 25 h to answer one step (login or any command) of an operation, under a harness-owned event-loop clock: the slow operation may wait or give up, but every frame it and the following operations write must belong to a whole exchange bound to its own login. many-objects: 66..130 (thorough 520) API objects with distinct ids and keys alive at once, one operation each, then the first ones again.')
 ASSUMPTIONS = [
     "the harness owns the schedule: reply delays are counts of event-loop turns; the only interleavings explored are those a single-threaded asyncio client can observe",
     "two operations are never run concurrently on the same API object (unsupported by the stream protocol)",
@@ -161,7 +161,7 @@ async def run_history(rep, case, sub):
 
 
 def _brief(case):
-    return {"clients": case["clients"], "concurrent": case.get("concurrent", False),
+    return {"clients": case["clients"][:4], "n_clients": len(case["clients"]), "concurrent": case.get("concurrent", False),
             "ops": [{"client": o["client"], "kind": o["kind"], "session": o["session"], "delays": o.get("delays")}
                     for o in case["ops"][:8]]}
 
@@ -300,6 +300,26 @@ def cases_slow_device(tier):
     return gen_cases
 
 
+def cases_many_objects(tier):
+    """Many API objects with different device ids / keys alive in one process, each doing one operation, then the first
+    ones again: whatever the library keeps per device must not run out of room or get mixed up."""
+    def gen_cases():
+        out = []
+        for typ in (1, 2):
+            kinds = ["get_state", "control_on", "get_schedules"] if typ == 1 else ["stop", "get_shutter_state", "get_breeze_state", "set_position"]
+            for n in ([66, 70, 130] + ([260, 520] if tier == "thorough" else [])):
+                clients = [{"type": typ, "device_id": f"{(i * 2654435761 + 12345) % 0xFFFFFF:06x}", "key": (i * 37 + 1) % 256} for i in range(n)]
+                oplist = []
+                for rnd, idxs in enumerate([range(n), list(range(0, 6)) + [n // 2, n - 1]]):
+                    for i in idxs:
+                        k = kinds[(i + rnd) % len(kinds)]
+                        oplist.append({"client": i, "kind": k, "args": CANON_ARGS[k], "gap": 1, "salt": 1 + i % 50,
+                                       "session": bytes([0xD0 + rnd, i % 256, i >> 8, typ]).hex()})
+                out.append({"clients": clients, "t0": 1_700_000_000, "zone": "UTC", "ops": oplist})
+        return out
+    return gen_cases
+
+
 async def run_with_hangup(rep, case, sub):
     """op A (fine) - op B (the device answers the login, then closes instead of answering the command) - the caller
     reconnects - op C (fine).  On EVERY connection the client opened, the frame log must consist of whole exchanges that
@@ -376,6 +396,7 @@ def subchecks(tier):
         Sub("device-hangs-up", lambda rep, case: net.run(run_with_hangup(rep, case, "device-hangs-up")), strategy=strat_hangup,
             n=20_000 if big else 400, shards=16 if big else 2),
         Sub("sequences", make_body("sequences"), strategy=strat_seq, n=60_000 if big else 800, shards=16 if big else 4),
+        Sub("many-objects", make_body("many-objects"), cases=cases_many_objects(tier), shards=3, exhaustive=False),
         Sub("slow-device", make_body("slow-device"), cases=cases_slow_device(tier), shards=16 if big else 4, exhaustive=True),
         Sub("interleaved", make_body("interleaved"), strategy=strat_interleaved, n=60_000 if big else 1000, shards=16 if big else 4),
     ]
